@@ -16,6 +16,7 @@ import (
 	"github.com/idena-network/idena-go/config"
 	"github.com/idena-network/idena-go/core/flip"
 	"github.com/idena-network/idena-go/core/mempool"
+	"github.com/idena-network/idena-go/core/state"
 	"github.com/idena-network/idena-go/core/upgrade"
 	"github.com/idena-network/idena-go/ipfs"
 	"github.com/idena-network/idena-go/pengings"
@@ -26,54 +27,98 @@ import (
 )
 
 type fixture struct {
-	kind      string // empty | populated | ceremony | epoch1
-	seed      int64
-	blocks    int
-	w         *chainfx.World
-	h         *chainfx.History
-	n         *chainfx.Node
-	proposals *pengings.Proposals
-	votes     *pengings.Votes
-	flipper   *flip.Flipper
-	keys      *mempool.KeysPool
-	gossip    *protocol.VerifC12Gossip
-	ipfs      ipfs.Proxy
-	canon     []*types.Block // canonical blocks produced by the history (index = height-2)
+	kind       string // empty | populated | ceremony | epoch1
+	seed       int64
+	blocks     int
+	w          *chainfx.World
+	h          *chainfx.History
+	n          *chainfx.Node
+	proposals  *pengings.Proposals
+	votes      *pengings.Votes
+	flipper    *flip.Flipper
+	keys       *mempool.KeysPool
+	gossip     *protocol.VerifC12Gossip
+	ipfs       ipfs.Proxy
+	canon      []*types.Block // canonical blocks produced by the history (index = height-2)
+	sinceEpoch int            // blocks since the last epoch change
 }
 
-var stateKinds = map[string]int{"empty": 0, "populated": 14, "ceremony": 29, "epoch1": 40, "populated+emptyhead": 14, "epoch1+emptyhead": 40}
+// State kinds are defined by what the state IS (derived from the node), not by block numbers of the shared history
+// generator: the history is advanced block by block until the predicate holds.
+type stateKind struct {
+	minBlocks int
+	maxBlocks int
+	reached   func(f *fixture, blocks int) bool
+}
+
+var stateKinds = map[string]stateKind{
+	"empty": {0, 0, func(f *fixture, b int) bool { return true }},
+	"populated": {14, 60, func(f *fixture, b int) bool {
+		return f.n.App.State.ValidationPeriod() == state.NonePeriod && (len(f.pools()) > 0 || b >= 17) // pools preferred, not required
+	}},
+	"ceremony": {15, 120, func(f *fixture, b int) bool { return f.n.App.State.ValidationPeriod() == state.LongSessionPeriod }},
+	"epoch1": {20, 200, func(f *fixture, b int) bool {
+		return f.n.App.State.Epoch() >= 1 && f.n.App.State.ValidationPeriod() == state.NonePeriod && f.sinceEpoch >= 5
+	}},
+}
 
 const nUsers = 12
 
-// newFixture builds world `seed` and advances its history to the block count of `kind` (deterministic in seed+kind).
+func baseKind(kind string) (string, bool) {
+	if strings.HasSuffix(kind, "+emptyhead") {
+		return strings.TrimSuffix(kind, "+emptyhead"), true
+	}
+	return kind, false
+}
+
+// usableProposal: a proposal the edit closures may start from
+func usableProposal(p *types.BlockProposal) bool {
+	return p != nil && p.Block != nil && p.Block.Header != nil && p.Block.Header.ProposedHeader != nil && p.Block.Body != nil &&
+		len(p.Block.Header.ProposedHeader.ProposerPubKey) > 0 && len(p.Signature) > 0
+}
+
+// newFixture builds world `seed` and advances its history until the state is of kind `kind` (deterministic in
+// seed+kind); an error means this world does not get there or the node cannot propose a valid block there.
 func newFixture(seed int64, kind string) (*fixture, error) {
-	nb, ok := stateKinds[kind]
+	bk, emptyHead := baseKind(kind)
+	sk, ok := stateKinds[bk]
 	if !ok {
 		return nil, fmt.Errorf("unknown state kind %q", kind)
 	}
 	r := rand.New(rand.NewSource(seed*7919 + 1))
 	w := chainfx.NewWorld(seed, nUsers, 0, time.Date(2030, 1, 1, 0, 0, 0, 0, time.UTC))
-	h, err := chainfx.Bootstrap(w, chainfx.HistoryOpts{Blocks: nb, ShortEpochs: true, TxPerBlock: 4, WithFlips: true}, r, true)
+	h, err := chainfx.Bootstrap(w, chainfx.HistoryOpts{Blocks: sk.maxBlocks, ShortEpochs: true, TxPerBlock: 4, WithFlips: true}, r, true)
 	if err != nil {
 		return nil, err
 	}
-	f := &fixture{kind: kind, seed: seed, blocks: nb, w: w, h: h, n: h.N}
-	if nb > 0 {
+	f := &fixture{kind: kind, seed: seed, w: w, h: h, n: h.N}
+	if sk.maxBlocks > 0 {
 		// make user 1 a pool with several delegators and the god identity a pool as well (proposer-side code paths that
-		// depend on the pool size); the delegations take effect at the next delegation switch (every 3 blocks here)
+		// depend on the pool size); the delegations take effect at the next delegation switch
 		for _, d := range [][2]int{{2, 1}, {3, 1}, {5, 1}, {9, 1}, {10, 0}, {11, 0}} {
 			to := w.Addrs[d[1]]
 			h.S.Send(h.N, d[0], &types.Transaction{Type: types.DelegateTx, To: &to})
 		}
 	}
-	for b := 1; b <= nb; b++ {
-		blk, err := h.Step(b)
+	epoch := f.n.App.State.Epoch()
+	b := 0
+	for ; b < sk.maxBlocks && !(b >= sk.minBlocks && sk.reached(f, b)); b++ {
+		blk, err := h.Step(b + 1)
 		if err != nil {
-			return nil, fmt.Errorf("history step %d: %v", b, err)
+			return nil, fmt.Errorf("history step %d: %v", b+1, err)
 		}
 		f.canon = append(f.canon, blk)
+		if e := f.n.App.State.Epoch(); e != epoch {
+			epoch, f.sinceEpoch = e, 0
+		} else {
+			f.sinceEpoch++
+		}
 	}
-	if strings.HasSuffix(kind, "+emptyhead") {
+	f.blocks = b
+	if !(b >= sk.minBlocks && sk.reached(f, b)) {
+		return nil, fmt.Errorf("state %s not reached within %d blocks", bk, sk.maxBlocks)
+	}
+	if emptyHead {
 		// the head is an EMPTY block (a round without proposal): predecessors without ProposedHeader
 		chainfx.Advance(25 * time.Second)
 		eb := h.N.Chain.GenerateEmptyBlock()
@@ -83,8 +128,46 @@ func newFixture(seed int64, kind string) (*fixture, error) {
 		f.canon = append(f.canon, eb)
 		chainfx.Advance(20 * time.Second)
 	}
+	// the streams start from the node's own proposal: it must exist and validate here
+	if !f.n.IsEligibleProposer() {
+		return nil, fmt.Errorf("node is not an eligible proposer in state %s", kind)
+	}
+	var perr error
+	func() {
+		defer func() {
+			if rec := recover(); rec != nil {
+				perr = fmt.Errorf("own proposal panicked: %v", rec)
+			}
+		}()
+		p := f.ownProposal()
+		if !usableProposal(p) {
+			perr = fmt.Errorf("node cannot propose in state %s", kind)
+			return
+		}
+		if _, err := f.n.Chain.ValidateBlock(p.Block, nil, nil); err != nil {
+			perr = fmt.Errorf("own proposal does not validate in state %s: %v", kind, err)
+		}
+	}()
+	if perr != nil {
+		return nil, perr
+	}
 	f.attach()
 	return f, nil
+}
+
+// findFixture tries world seeds seed, seed+1000, … until one reaches a usable state of the kind.
+func findFixture(seed int64, kind string) (*fixture, error) {
+	var last error
+	for k := int64(0); k < 6; k++ {
+		f, err := newFixture(seed+1000*k, kind)
+		if err == nil {
+			return f, nil
+		}
+		last = err
+		os.RemoveAll("./testdata")
+		os.RemoveAll("./testdata2")
+	}
+	return nil, fmt.Errorf("no usable world for state %s (seeds %d, %d, …): %v", kind, seed, seed+1000, last)
 }
 
 // attach builds the consumers of network messages on top of the node, with the node's own constructors.
